@@ -168,10 +168,11 @@ func (g *SessionManager) selectSession(msg interface{}) getty.Session {
 		for i := 0; i < maxCheckAliveRetry; i++ {
 			<-ticker.C
 			g.allSessions.Range(func(key, value interface{}) bool {
-				session = key.(getty.Session)
-				if session.IsClosed() {
-					g.releaseSession(session)
+				tmpSession := key.(getty.Session)
+				if tmpSession.IsClosed() {
+					g.releaseSession(tmpSession)
 				} else {
+					session = tmpSession
 					return false
 				}
 				return true
